@@ -103,6 +103,33 @@ func jsonEventsAfter(b []byte, trailing bool, pre string) string {
 	})
 }
 
+// jsonLenAfter: Len() of one document object after other calls were made on it.
+func jsonLenAfter(b []byte, pre string) string {
+	return vh.Recover(func() string {
+		d := jdoc.New("d", b, jdoc.AllowTrailingNonSpaceCharacters())
+		for _, c := range pre {
+			func() {
+				defer func() { _ = recover() }()
+				switch c {
+				case 'C':
+					_ = d.Check()
+				case 'P':
+					for i := 0; i < 3; i++ {
+						if _, err := d.NextLexeme(); err != nil {
+							break
+						}
+					}
+				}
+			}()
+		}
+		l, err := d.Len()
+		if err != nil {
+			return perr(err)
+		}
+		return fmt.Sprintf("LEN %d", l)
+	})
+}
+
 func jsonEvents(b []byte, trailing bool) string {
 	return vh.Recover(func() string {
 		evs, e := jsonEventList(b, trailing)
@@ -429,6 +456,7 @@ func init() {
 		var reqs, impl, inputs []string
 		nEmit := 0
 		histPres := []string{"L", "C", "LC", "CL", "PL", "PC", "LL"}
+		lenPres := []string{"P", "PP", "PC", "CP", "C"}
 		emit := func(b []byte) {
 			h := vh.Hex(b)
 			cs, cd := jsonCheck(b, false), jsonCheck(b, true)
@@ -449,6 +477,15 @@ func init() {
 						rep.AddDiff(vh.Diff{Component: "C06-history", Input: fmt.Sprintf("%q trailing=%v calls-before=%s (L=Len C=Check P=read 3 lexemes)", b, tr, pre),
 							Impl: "events after those calls: " + after, Model: "events of a fresh document: " + fresh})
 					}
+				}
+			}
+			if nEmit%7 == 3 {
+				pre := lenPres[(nEmit/7)%len(lenPres)]
+				fresh, after := jsonLen(b), jsonLenAfter(b, pre)
+				rep.Stat("len_history_" + pre)
+				if fresh != after {
+					rep.AddDiff(vh.Diff{Component: "C14-history", Input: fmt.Sprintf("%q calls-before-Len=%s (C=Check P=read 3 lexemes)", b, pre),
+						Impl: "Len after those calls: " + after, Model: "Len of a fresh document: " + fresh})
 				}
 			}
 			if cs == "OK" {
@@ -538,8 +575,46 @@ func init() {
 			if i%2 == 0 { // array of scalars for the enum scanner
 				n := r.Intn(5)
 				parts := make([]string, n)
+				keys := map[string]bool{}
+				realDup := false
 				for j := range parts {
-					parts[j] = genWS(r) + genScalar(r) + genWS(r)
+					sc := genScalar(r)
+					parts[j] = genWS(r) + sc + genWS(r)
+					// the duplicate key of the property: (decoded text, string or not)
+					k := "n:" + sc
+					if strings.HasPrefix(sc, "\"") {
+						var dec string
+						if stdjson.Unmarshal([]byte(sc), &dec) == nil {
+							k = "s:" + dec
+						} else {
+							k = "s?:" + sc
+						}
+					}
+					if keys[k] {
+						realDup = true
+					}
+					keys[k] = true
+					// every third list: the twin of this item — same text, other kind ("1" next to 1): not a duplicate
+					if i%3 == 0 && j+1 < len(parts) && !strings.HasPrefix(sc, "\"") {
+						tw := "\"" + sc + "\""
+						parts[j+1] = genWS(r) + tw + genWS(r)
+						if keys["s:"+sc] {
+							realDup = true
+						}
+						keys["s:"+sc] = true
+						rep.Stat("clone_enum_twins")
+						break
+					}
+				}
+				for j := range parts {
+					if parts[j] == "" { // slots after a twin
+						sc := fmt.Sprintf("%d", 1000+j)
+						parts[j] = sc
+						if keys["n:"+sc] {
+							realDup = true
+						}
+						keys["n:"+sc] = true
+					}
 				}
 				at := "[" + strings.Join(parts, ",") + "]"
 				if n == 0 {
@@ -552,6 +627,11 @@ func init() {
 				// the enum scanner reports duplicates as an error: skip texts with repeated items
 				if !strings.HasPrefix(gotA, "ERR 810") && gotA != wantA {
 					rep.AddDiff(vh.Diff{Component: "C06-clone-enum", Input: at, Impl: "enum scanner: " + gotA, Model: "JSON scanner: " + wantA})
+				}
+				if strings.HasPrefix(gotA, "ERR 810") != realDup {
+					rep.Stat("clone_enum_dup_mismatch")
+					rep.AddDiff(vh.Diff{Component: "C06-clone-enum", Input: at, Impl: "enum scanner: " + gotA,
+						Model: fmt.Sprintf("duplicate (same decoded text and same kind) present: %v; without one the JSON scanner's events: %s", realDup, wantA)})
 				}
 			}
 		}
